@@ -1316,3 +1316,70 @@ def _ancestors(node):
     while t is not None:
         yield t
         t = getattr(t, '_parent', None)
+
+
+def rule_anchor_getter_rederives(check, rule):
+    """C12.R11 (round 9, C12-u): an anchor-based factory `f(anchor, names, func, ...)` hands the translator a getter
+    `get=partial(f, <anchor>, <names>)` that re-runs the factory on the function the descriptor protocol binds.  The
+    bound function has lost its first parameter, so the getter must start from what the *user* wrote -- the factory's
+    own leading parameters, in their positions, unedited -- and never from the names the body resolved on the unbound
+    function (they contain `self` once the anchor lies at or after it: "Parameters not found: self" on every attribute
+    access through an instance).  Necessary condition of `bound method call == advertised signature`."""
+    repo = check.repo
+    n = 0
+    for fi in repo.all_funcs():
+        if fi.module.name != 'modifiers' or fi.cls is not None:
+            continue
+        for kw in [x for x in ast.walk(fi.node) if isinstance(x, ast.keyword) and x.arg == 'get']:
+            v = kw.value
+            if not (isinstance(v, ast.Call) and norm(v.func).split('.')[-1] == 'partial' and v.args
+                    and isinstance(v.args[0], ast.Name) and v.args[0].id == fi.name):
+                continue
+            n += 1
+            check.analysed(fi)
+            params = [p[0] if isinstance(p, tuple) else p for p in _positional_names(fi.node)]
+            stored = set()
+            for x in ast.walk(fi.node):
+                if isinstance(x, ast.Name) and isinstance(x.ctx, (ast.Store, ast.Del)):
+                    stored.add(x.id)
+                if isinstance(x, ast.Call) and isinstance(x.func, ast.Attribute) and isinstance(x.func.value, ast.Name) \
+                        and x.func.attr in ('add', 'update', 'append', 'extend', 'discard', 'remove', 'pop', 'clear', 'insert', 'sort'):
+                    stored.add(x.func.value.id)
+                if isinstance(x, ast.AugAssign) and isinstance(x.target, ast.Name):
+                    stored.add(x.target.id)
+            key = '%s|getter-rederives' % fi.key
+            bad = None
+            if v.keywords:
+                bad = None if all(k.arg in params and isinstance(k.value, ast.Name) and k.value.id == k.arg and k.arg not in stored
+                                  for k in v.keywords) else 'keywords %s' % ', '.join(norm(k)[:30] for k in v.keywords)
+            for i, a in enumerate(v.args[1:]):
+                want = params[i] if i < len(params) else None
+                core = a
+                while isinstance(core, ast.Call) and isinstance(core.func, ast.Name) and core.func.id in ('tuple', 'list', 'set', 'frozenset', 'sorted') \
+                        and len(core.args) == 1 and not core.keywords:
+                    core = core.args[0]
+                if isinstance(core, ast.Name) and core.id == want and want not in stored:
+                    continue
+                names = sorted(set(x.id for x in ast.walk(a) if isinstance(x, ast.Name)))
+                if isinstance(core, ast.Name) and core.id in stored:
+                    bad = 'argument %d of the getter is %s, which the body edits after resolving names on the unbound function' % (i + 1, norm(a)[:40])
+                elif isinstance(core, ast.Name) and core.id in params:
+                    bad = 'argument %d of the getter is the factory\'s parameter %r, not its parameter %r' % (i + 1, core.id, want)
+                else:
+                    bad = 'argument %d of the getter is %s (names %s), not the factory\'s own parameter %r' % (i + 1, norm(a)[:40], names, want)
+                break
+            if len(v.args) - 1 + len(v.keywords) < 2 and bad is None:
+                bad = 'the getter fixes only %d of the factory\'s leading arguments' % (len(v.args) - 1)
+            if bad:
+                check.violation(rule, site_of(fi, kw), '%s: get=%s -- %s; on attribute access through an instance the factory then runs on the bound '
+                                'function with names resolved on the unbound one' % (fi.name, norm(v)[:60], bad), key=key,
+                                witness="class K:\n    @posoargs(end='a')\n    def m(self, a, b): ...\nK().m  -> ValueError: Parameters not found: self")
+            else:
+                check.holds(rule, site_of(fi, kw), '%s: the getter re-runs the factory with its own leading parameters %s, unedited'
+                            % (fi.name, ', '.join(norm(a) for a in v.args[1:])), key=key)
+    check.floor(rule, 'anchor-based getters (get=partial(<factory>, ...))', n, 2)
+
+
+def _positional_names(fnode):
+    a = fnode.args
+    return [x.arg for x in list(a.posonlyargs) + list(a.args)]
